@@ -2,6 +2,4 @@ package gen
 
 import "verif/plan"
 
-func genC06(r *plan.Rng) *plan.Plan { panic("C06 generator not built yet") }
-func genC14(r *plan.Rng) *plan.Plan { panic("C14 generator not built yet") }
 func genC15(r *plan.Rng) *plan.Plan { panic("C15 generator not built yet") }
